@@ -65,6 +65,24 @@ def cells(tier: str) -> dict:
             return s, rg, pre
         out[name] = f
 
+    # narrow variants (efforts 1..2 slots, priorities 499..501, pins within the first 20 slots): exhausted in the quick budget
+    def narrow(name, spec_f, extra=None):
+        def f():
+            sp = spec_f()
+            rg = {}
+            for n in sp.params():
+                rg[n] = (1, 2) if n.startswith("e") else ((499, 501) if n.startswith("p") else (0, 20))
+            rg.update(extra or {})
+            return sp, rg, None
+        out[name] = f
+    narrow("R1x2[narrow]", lambda: R1(2))
+    narrow("R1x3[narrow]", lambda: R1(3))
+    narrow("R2[gap=1h,narrow]", lambda: R2("1h"))
+    narrow("R2[gap=1d,narrow]", lambda: R2("1d"))
+    narrow("R2[onstart,1h,narrow]", lambda: R2("1h", True))
+    narrow("R3team[narrow]", R3)
+    narrow("R8[leave,narrow]", lambda: R8("leave"))
+    narrow("R8[vacation,narrow]", lambda: R8("vacation"))
     add("R1x2", lambda: R1(2), 6)
     add("R1x3", lambda: R1(3), 3 if tier == "quick" else 4)
     add("R1x2[eff=0.5]", lambda: R1(2, eff=0.5), 4)
